@@ -83,6 +83,7 @@ class GenCfg:
     zero_len_same_start_ok: bool = True
     unlinked_head: int = 0           # device activities before everything whose launch is outside the trace
     gpu_annotations: bool = False
+    corr_base: int = 100             # first correlation id of rank 0 (ranks are 100 apart)
 
 
 @dataclass
@@ -105,7 +106,7 @@ class _Sim:
         self.rng, self.cfg, self.rank = rng, cfg, rank
         self.pid = 4000 + rank
         self.ev: List[Dict[str, Any]] = []
-        self.corr = 100 * (rank + 1)
+        self.corr = cfg.corr_base + 100 * rank
         self.last_end: Dict[int, int] = {}      # per stream: end of last placed activity
         self.last_start: Dict[int, int] = {}
         self.launched: Dict[int, List[int]] = {}  # per stream: ends of activities launched so far
